@@ -208,6 +208,28 @@ def _unwrap(value, loop_drain):
     return ('pending',)
 
 
+def _loop_future_in_reply(value, loop_drain):
+    """A reply travels to the controller through communicator-side (concurrent / kiwi) futures, which may nest; an
+    asyncio future of the process's loop among them means that an intermediate object was sent instead of the outcome.
+    The harness's own controller coroutine task is the outermost level and does not count."""
+    first = True
+    for _ in range(8):
+        if isinstance(value, asyncio.Future) and not first:
+            return type(value).__name__
+        if isinstance(value, (concurrent.futures.Future, asyncio.Future)):
+            first = False
+            if not value.done():
+                loop_drain()
+                if not value.done():
+                    return None
+            if value.cancelled() or value.exception() is not None:
+                return None
+            value = value.result()
+            continue
+        return None
+    return None
+
+
 def _snap(ex):
     p = ex.proc
     return (p.state.value, p.paused, p.status, str(sorted(p.outputs.items())))
@@ -423,6 +445,10 @@ def execute(case):
                     v('terminated-process-still-routable', f"RPC {what} was delivered to a terminated process ({rec['state_before']})")
                     continue
                 if kind == 'bcast':
+                    continue
+                leaked = _loop_future_in_reply(rec['reply'], a.drain)
+                if leaked is not None:
+                    v('reply-not-final', f"message {rec['msg']} in state {rec['state_before']}: the reply that reached the controller is {leaked}, a future of the process's event loop instead of the final outcome")
                     continue
                 raw = _unwrap(rec['reply'], a.drain)
                 if raw[0] == 'raise' and isinstance(raw[1], kiwipy.UnroutableError) and a.ex.proc.has_terminated():
